@@ -54,7 +54,13 @@ def run(ck, rng, tier):
     nsweep = (RMAX + 1) * TMAX
     ncidx = 65 if thorough else 41
     if rc != 0 or len(outs) != nsweep + ncidx + len(dist_meta):
-        ck.broken("driver drv_c13", "rc=%s cases=%d %s" % (rc, len(outs), err[-800:]))
+        if len(outs) < len(lines):
+            # the library died on a concrete input: that input is the failing case
+            op = lines[len(outs)]
+            ck.fail("kernel:" + op.split()[0], "crash", "the library aborted or crashed (rc %s) on `%s`: %s" % (rc, op[:120], (err.strip().splitlines() or [""])[-1][:200]),
+                    {"input": op[:2000], "stderr": err[-800:], "replay": "echo '<input>' | drv_c13"})
+        else:
+            ck.broken("driver drv_c13", "rc=%s cases=%d %s" % (rc, len(outs), err[-800:]))
         return
     k = 0
     for R in range(0, RMAX + 1):
